@@ -187,6 +187,9 @@ func (c *trCtx) calledFunc(x *ast.CallExpr) *types.Func {
 
 // calleeOf: the translated function called by x (nil for prelude calls, builtins, conversions)
 func (c *trCtx) calleeOf(x *ast.CallExpr) (*trFunc, ast.Expr) {
+	if tf, recv := c.t.writerCallee(c.info(), x); tf != nil {
+		return tf, recv // fmt.Fprintf(p, …) / io.WriteString(p, s) = p.Write(text)
+	}
 	var fobj *types.Func
 	var recv ast.Expr
 	switch f := trUnparen(x.Fun).(type) {
@@ -505,6 +508,9 @@ func (c *trCtx) exprStmt(x *ast.ExprStmt, k trK) trLines {
 	}
 	// a prelude method that writes to its receiver (strings.Builder): the receiver is rebound, the results are dropped
 	if fo := c.calledFunc(call); fo != nil {
+		if out, ok := c.primResultCall(call, nil, false, k); ok {
+			return out
+		}
 		if p, ok := trPrims[fo.FullName()]; ok && p.mutRecv {
 			sel := trUnparen(call.Fun).(*ast.SelectorExpr)
 			args := []string{c.expr(sel.X)}
@@ -700,7 +706,9 @@ func (c *trCtx) assign(x *ast.AssignStmt, k trK) trLines {
 			}
 		}
 		var val string
-		if x.Tok == token.ASSIGN {
+		if _, nilable := c.nilableSel(x.Lhs[0]); nilable && x.Tok == token.ASSIGN {
+			val = c.nilableValue(x.Rhs[0], c.typeOf(x.Lhs[0]))
+		} else if x.Tok == token.ASSIGN {
 			val = c.exprAs(x.Rhs[0], c.typeOf(x.Lhs[0]))
 		} else {
 			val = c.expr(x.Rhs[0])
@@ -771,6 +779,9 @@ func (c *trCtx) assignMulti(x *ast.AssignStmt, k trK) trLines {
 		if tf, recv := c.calleeOf(r); tf != nil && len(tf.mut) > 0 {
 			return c.mutCall(r, tf, recv, x.Lhs, x.Tok == token.DEFINE, k)
 		}
+		if out, ok := c.primResultCall(r, x.Lhs, x.Tok == token.DEFINE, k); ok {
+			return out
+		}
 		tup, ok := c.typeOf(r).(*types.Tuple)
 		if !ok || tup.Len() != len(x.Lhs) {
 			trFail(x.Pos(), "assignment of a call with %d results to %d targets is outside the subset", tup.Len(), len(x.Lhs))
@@ -803,6 +814,9 @@ func (c *trCtx) assignMulti(x *ast.AssignStmt, k trK) trLines {
 // mutCall: a call of a translated function that assigns through pointer/map parameters: the arguments bound to them must
 // be assignable expressions; they are rebound to the new values the function returns first.
 func (c *trCtx) mutCall(call *ast.CallExpr, tf *trFunc, recv ast.Expr, lhs []ast.Expr, define bool, k trK) trLines {
+	if s := c.writerSynth(call); s != nil {
+		call = s
+	}
 	var args []string
 	if recv != nil {
 		args = append(args, c.expr(recv))
